@@ -34,6 +34,41 @@ type Solver struct {
 	MaxQuery    time.Duration
 	dump        *os.File // optional query log for cross-checking
 	lastErr     string
+	Samples     []xSample // standalone copies of a few queries, re-decided by the other solvers after the run
+	slowest     *xSample
+}
+
+// xSample is one query (path condition and goal) as a self-contained SMT-LIB2 script, with this solver's verdict.
+type xSample struct {
+	Script  string
+	Verdict int
+	Seq     int
+	FP      bool
+	Dur     time.Duration
+}
+
+// standalone prints pc ∧ c as a script that needs no solver state.
+func standalone(pc []*Term, c *Term) string {
+	e := &Solver{declared: map[*Term]bool{}, ufDecl: map[string]bool{}, defined: map[*Term]string{}}
+	var sb strings.Builder
+	for _, t := range pc {
+		txt := e.emit(t, &sb)
+		sb.WriteString("(assert " + txt + ")\n")
+	}
+	if c != nil {
+		txt := e.emit(c, &sb)
+		sb.WriteString("(assert " + txt + ")\n")
+	}
+	sb.WriteString("(check-sat)\n")
+	return sb.String()
+}
+
+func xSampleAt(n int) bool {
+	switch n {
+	case 4, 40, 400, 4000, 40000, 400000:
+		return true
+	}
+	return false
 }
 
 func NewSolver(bin string, timeoutMs int) *Solver {
@@ -227,6 +262,11 @@ func (s *Solver) Check(pc []*Term, c *Term, vars []*Term) (res int, model Model)
 			s.MaxQuery = d
 		}
 		s.Queries++
+		if xSampleAt(s.Queries) && len(s.Samples) < 8 {
+			s.Samples = append(s.Samples, xSample{standalone(pc, c), res, s.Queries, anyFP(pc, c), d})
+		} else if res != -1 && d > 300*time.Millisecond && (s.slowest == nil || d > 2*s.slowest.Dur) {
+			s.slowest = &xSample{standalone(pc, c), res, s.Queries, anyFP(pc, c), d}
+		}
 		switch res {
 		case 1:
 			s.Sat++
